@@ -249,6 +249,9 @@ func matchExists(_ Context, doc bsonkit.Doc, _, path string, v interface{}) erro
 		exists = n != 0
 	case float64:
 		exists = n != 0
+	case primitive.Decimal128:
+		big, _, err := n.BigInt()
+		exists = err != nil || big.Sign() != 0
 	}
 
 	// collect values along the path; All traverses arrays of subdocs and
